@@ -70,6 +70,17 @@ Theorem C15_no_candidate_unchanged : forall ph cands acc acc' other,
 Proof. intros ph cands acc acc' other. exact (side_rel_no_candidate ph Fixed cands acc acc' other). Qed.
 Print Assumptions C15_no_candidate_unchanged.
 
+(* The repaired code satisfies the executable statement of the property that the check
+   evaluates on the binary's output (Spec/InferSpec.v), for every valid choice function:
+   only placeholder sides differ; each is a training account different from the other side
+   of its booking AS PRINTED, or is unchanged when the training journal offers none. *)
+Theorem C15_fixed_meets_spec : forall ph training choose k target out k',
+  valid_choose choose ->
+  infer_sems ph Fixed choose (candidates ph training) k target = (out, k') ->
+  infer_ok_b ph training target out = true.
+Proof. exact fixed_meets_spec. Qed.
+Print Assumptions C15_fixed_meets_spec.
+
 (* The printed text is the target's gaps interleaved with the rendering of the inferred
    meanings -- the very function that `format` is of meanings and gaps (C08_format_shape). *)
 Theorem C15_rest_is_format : forall ph v letter digit choose training target out,
